@@ -59,9 +59,17 @@ class PolynomialKernel(Kernel):
         if offset_prior is not None:
             if not isinstance(offset_prior, Prior):
                 raise TypeError("Expected gpytorch.priors.Prior but got " + type(offset_prior).__name__)
-            self.register_prior("offset_prior", offset_prior, lambda m: m.offset, lambda m, v: m._set_offset(v))
+            self.register_prior("offset_prior", offset_prior, self._offset_param, self._offset_closure)
 
         self.register_constraint("raw_offset", offset_constraint)
+
+    def _offset_param(self, m):
+        # Used by the offset_prior (a method rather than a lambda: the module stays picklable)
+        return m.offset
+
+    def _offset_closure(self, m, v):
+        # Used by the offset_prior
+        return m._set_offset(v)
 
     @property
     def offset(self) -> torch.Tensor:
